@@ -131,17 +131,20 @@ func (c *Client) ProcessCommand(ctx context.Context, cmd *RequestCommand) (*Resp
 	return channel.ProcessCommand(ctx, cmd)
 }
 
-func (c *Client) channelOK() bool {
+// establishedChannel returns the current channel if it is established, or nil.
+func (c *Client) establishedChannel() *ClientChannel {
 	c.mu.RLock()
 	defer c.mu.RUnlock()
-	return c.channel != nil && c.channel.Established()
+	if c.channel != nil && c.channel.Established() {
+		return c.channel
+	}
+	return nil
 }
 
 func (c *Client) getOrBuildChannel(ctx context.Context) (*ClientChannel, error) {
-	if c.channelOK() {
-		c.mu.RLock()
-		defer c.mu.RUnlock()
-		return c.channel, nil
+	// Checked and taken in one step: Close may clear the field at any moment
+	if channel := c.establishedChannel(); channel != nil {
+		return channel, nil
 	}
 
 	select {
@@ -155,10 +158,8 @@ func (c *Client) getOrBuildChannel(ctx context.Context) (*ClientChannel, error) 
 		<-c.lock
 	}()
 
-	if c.channelOK() {
-		c.mu.RLock()
-		defer c.mu.RUnlock()
-		return c.channel, nil
+	if channel := c.establishedChannel(); channel != nil {
+		return channel, nil
 	}
 
 	count := 0.0
